@@ -42,6 +42,7 @@ def run_in_kernel(ch, knobs, main_fn):
     gc.disable()
     from . import shims
     shims.TRACE_SEAM.visible = seams.VISIBLE_FULL if (knobs or {}).get("trace_self", True) else seams.VISIBLE_HOST
+    k.exit_hook = shims.thread_exit_hook
     try:
         k.run(lambda: main_fn(k))
     finally:
